@@ -447,8 +447,8 @@ def grid_from_epsfs(epsfs, grid_xypos=None, meta=None):
 
     data_cube = np.stack(data_arrs, axis=0)
 
-    if meta is None:
-        meta = {}
+    # do not modify the input meta dictionary
+    meta = {} if meta is None else dict(meta)
     # add required keywords to meta
     meta['grid_xypos'] = grid_xypos
     meta['oversampling'] = oversampling
